@@ -38,6 +38,8 @@ def render(segments):
             out.append(seg[1])
         elif kind == "comment":
             out.append("//" + seg[1])
+        elif kind == "rawparam":
+            out.append(seg[4])  # literal text whose tokenization is (key, comps)
         else:
             _, key, comps, term = seg
             out.append("#" + ":".join(escape(c) for c in [key] + comps) + term)
@@ -50,9 +52,9 @@ def expected_params(segments):
     open_param = None  # a parameter without ';' keeps absorbing following blank/stray/comment text
     for seg in segments:
         kind = seg[0]
-        if kind == "param":
+        if kind in ("param", "rawparam"):
             open_param = None
-            _, key, comps, term = seg
+            _, key, comps, term = seg[:4]
             p = [key] + list(comps)
             out.append(p)
             if term == "":
@@ -128,7 +130,7 @@ def glue(rng, segments, crlf):
     for i, seg in enumerate(segments):
         out.append(seg)
         last = i == len(segments) - 1
-        if seg[0] == "param" and seg[3] == "":
+        if seg[0] in ("param", "rawparam") and seg[3] == "":
             # missing semicolon: must be followed by a line break and then '#' (or the end of the text)
             if last:
                 out.append(["blank", rng.choice(["", nl, nl + nl])])
@@ -182,7 +184,13 @@ def gen_ssc_segments(rng, chart_only=False):
     segs = []
     if not chart_only:
         ver = rng.choice(["VERSION", "VERSION", "version", "Version", "VeRsIoN"])
-        if rng.random() < 0.8:
+        r = rng.random()
+        if r < 0.1:
+            # the same key spelled with a (needless) escape inside: it still tokenizes to VERSION
+            i = rng.randrange(1, len(ver))
+            val = rng.choice(["0.83", ""])
+            segs.append(["rawparam", ver, [val], ";", "#" + ver[:i] + "\\" + ver[i:] + ":" + val + ";"])
+        elif r < 0.8:
             segs.append(["param", ver, [rng.choice(["0.83", "0.7", ""])], ";"])
         for _ in range(rng.choice([0, 1, 3, 6])):
             segs.append(rparam(rng, rkey(rng, KEYS_SM)))
@@ -193,6 +201,8 @@ def gen_ssc_segments(rng, chart_only=False):
         if rng.random() < 0.9:
             nk = rng.choice(["NOTES", "NOTES", "notes", "NOTES2", "Notes2"])
             notes = ["param", nk, [rng.choice(["\n0000\n0000\n0000\n0000\n", "", "0", "\n0001\n,\n1000\n", "00\\00\n", "\n0000\n\\"])], ";"]
+            if rng.random() < 0.12:
+                notes[2] = []  # key-only note data parameter: '#NOTES;' 
             items.insert(rng.randint(0, len(items)) if rng.random() < 0.3 else len(items), notes)
         segs.extend(items)
     return segs
@@ -226,7 +236,7 @@ def has_nonblank_stray(segments):
     """True if a non-blank stray segment lies *between parameters* (not absorbed by an unterminated parameter)."""
     open_param = False
     for seg in segments:
-        if seg[0] == "param":
+        if seg[0] in ("param", "rawparam"):
             open_param = seg[3] == ""
         elif seg[0] == "stray" and not open_param and seg[1].strip():
             return True
